@@ -79,7 +79,23 @@ Theorem C04_filestore_changes_at_most_once : forall FS fs_write_file fs_exec res
   r_fs (rrun fs_write_file fs_exec resp_fail not_performed cksum resp_len req_len ops1 s).
 Proof. exact filestore_changes_at_most_once. Qed.
 
+(* what the late arrivals do to a transaction that has left the receive-data phase, exactly: file
+   data and (unacknowledged) EOF are ignored - the state is returned unchanged; an acknowledged-mode
+   EOF is acknowledged again and nothing else changes *)
+Theorem C04_late_file_data_ignored : forall FS fs_write_file fs_exec resp_fail not_performed cksum now o d (s : rstate FS),
+  r_phase s <> RecvData ->
+  pdu_filedata_acked FS fs_write_file fs_exec resp_fail not_performed cksum now o d s = s /\
+  pdu_filedata_unacked o d s = s.
+Proof. intros. split; [apply late_filedata_acked|apply late_filedata_unacked]; assumption. Qed.
+Theorem C04_late_eof_only_acknowledged : forall FS fs_write_file fs_exec resp_fail not_performed cksum now e (s : rstate FS),
+  r_phase s <> RecvData ->
+  pdu_eof_acked FS fs_write_file fs_exec resp_fail not_performed cksum now e s = prepare_ack_eof s /\
+  pdu_eof_unacked FS fs_write_file fs_exec resp_fail not_performed cksum now e s = s.
+Proof. intros. split; [apply late_eof_acked|apply late_eof_unacked]; assumption. Qed.
+
 Print Assumptions C04_delivery_is_final.
 Print Assumptions C04_no_integrity_failure_after_success.
 Print Assumptions C04_step_changes_filestore_only_when_ending.
 Print Assumptions C04_filestore_changes_at_most_once.
+Print Assumptions C04_late_file_data_ignored.
+Print Assumptions C04_late_eof_only_acknowledged.
